@@ -142,6 +142,10 @@ class Target:
             self.edge.dest_node = Stub("dst")
         self.sh = mon.label(self.store, kind, self.edge)
         self.cap = self.store.capacity
+        self.fleet_oracle = None
+        if kind == "fleet":
+            from ..oracles.fleet import FleetOracle
+            self.fleet_oracle = FleetOracle(mon, self.sh, self.cap, self.params["delay"], self.params["transit"])
 
     # operations as a client would issue them
     def reserve_put(self, prio):
@@ -414,7 +418,11 @@ def run_case(seed, kind=None, profile=None, mode=None, nops=None):
         exc = e
     sh = T.sh
     # end-of-run checks
+    if T.fleet_oracle is not None:
+        T.fleet_oracle.finish(env.now)
     res = summarize(mon, sh, H, env, exc)
+    if T.fleet_oracle is not None:
+        res["nontrivial"]["C14"] = bool(getattr(T.fleet_oracle, "nontrivial", False))
     res["spec"] = {"engine": "E1", "seed": seed, "kind": kind, "profile": profile, "cap": T.cap, "clients": ncl,
                    "nops": nops, "params": T.params, "mode": {k: v for k, v in mode.items() if k not in ("kinds", "profiles")}}
     # C11: the delay source must be consulted exactly once per put through the Buffer edge
